@@ -135,4 +135,79 @@ theorem mulVec_birkhoffMatrix (xs : List F) (js : List ℕ) (c : List F) :
   funext x j
   exact dot_phi_row x j c
 
+/-! ## `Polynomial.Add / ScalarMul / Mul` -/
+section Arith
+omit [DecidableEq F]
+
+theorem toPoly_add (a b : List F) : toPoly (Poly.add a b) = toPoly a + toPoly b := by
+  induction a generalizing b with
+  | nil => simp [Poly.add, toPoly_nil]
+  | cons x a ih =>
+    cases b with
+    | nil => simp [Poly.add, toPoly_nil]
+    | cons y b => simp only [Poly.add, toPoly_cons, ih, C_add]; ring
+
+theorem toPoly_map_mul_right (cs : List F) (s : F) : toPoly (cs.map (· * s)) = toPoly cs * C s := by
+  induction cs with
+  | nil => simp [toPoly_nil]
+  | cons c cs ih => simp only [List.map_cons, toPoly_cons, ih, C_mul]; ring
+
+theorem toPoly_map_mul_left (cs : List F) (s : F) : toPoly (cs.map (s * ·)) = C s * toPoly cs := by
+  induction cs with
+  | nil => simp [toPoly_nil]
+  | cons c cs ih => simp only [List.map_cons, toPoly_cons, ih, C_mul]; ring
+
+theorem toPoly_smul (cs : List F) (s : F) : toPoly (Poly.smul cs s) = toPoly cs * C s :=
+  toPoly_map_mul_right cs s
+
+theorem toPoly_mulPoly (a b : List F) : toPoly (Poly.mulPoly a b) = toPoly a * toPoly b := by
+  induction a with
+  | nil => cases b <;> simp [Poly.mulPoly, toPoly_nil]
+  | cons x a ih =>
+    cases b with
+    | nil => simp [Poly.mulPoly, toPoly_nil]
+    | cons y b =>
+      have hdef : Poly.mulPoly (x :: a) (y :: b)
+          = Poly.add ((y :: b).map (x * ·)) (0 :: Poly.mulPoly a (y :: b)) := by
+        simp [Poly.mulPoly]
+      rw [hdef, toPoly_add, toPoly_map_mul_left, toPoly_cons (0 : F), ih, toPoly_cons x a]
+      simp only [map_zero, zero_add]; ring
+
+end Arith
+
+/-! ## in the exponent -/
+section Exponent
+omit [DecidableEq F]
+variable {G : Type} [AddCommGroup G] [Module F G]
+
+/-- Horner evaluation in the exponent of a lifted polynomial is the lift of the scalar evaluation -/
+theorem evalG_liftPoly (cs : List F) (g : G) (x : F) :
+    evalG (liftPoly cs g) x = Poly.eval cs x • g := by
+  induction cs with
+  | nil => simp [evalG, liftPoly, Poly.eval]
+  | cons c cs ih =>
+    have h1 : evalG (liftPoly (c :: cs) g) x = x • evalG (liftPoly cs g) x + c • g := rfl
+    have h2 : Poly.eval (c :: cs) x = Poly.eval cs x * x + c := rfl
+    rw [h1, h2, ih, add_smul, mul_smul, smul_comm]
+
+theorem nsmulG_smul (n : ℕ) (c : F) (g : G) : nsmulG n (c • g) = Poly.nsmul n c • g := by
+  induction n with
+  | zero => simp [nsmulG, Poly.nsmul]
+  | succ n ih => simp only [nsmulG, Poly.nsmul, ih, add_smul]
+
+/-- the coefficient-wise derivative in the exponent of a lifted polynomial is the lift of the
+coefficient-wise derivative (`ModuleValuedPolynomial.Derivative` does not trim) -/
+theorem derivG_liftPoly (cs : List F) (g : G) :
+    derivG (liftPoly cs g) = liftPoly (if cs.length ≤ 1 then [0] else derivCoeffs cs) g := by
+  unfold derivG liftPoly derivCoeffs
+  simp only [List.length_map]
+  split
+  · simp
+  · rw [← List.map_drop, List.zipIdx_map, List.map_map, List.map_map]
+    apply List.map_congr_left
+    intro ci _
+    simp [Function.comp, nsmulG_smul]
+
+end Exponent
+
 end BronVerif.Lemmas.PolyDeriv
